@@ -223,6 +223,41 @@ func runC09(r *mon.Run) {
 		}
 		same(&fixedReader{data: entropy, chunk: 1}, "1-byte-at-a-time")
 		w.Class("c09:reader:1-byte")
+		// a reader that scribbles over the spare capacity behind the bytes it was asked for
+		// (p[len(p):cap(p)]): the nonce is a function of the key, the digest and the 32 entropy
+		// bytes - not of whatever else the signer keeps behind its entropy buffer
+		same(&fixedReader{data: entropy, spill: rng.Bytes(1 + rng.Intn(8)), chunk: gen.Pick(rng, 0, 0, 1, 7, 16)}, "spare-capacity-scribbling")
+		w.Class("c09:reader:spills-into-spare-capacity")
+		// the caller's digest buffer changes while the entropy is being read (reader callback
+		// sharing scratch memory with the digest, concurrent reuse of the buffer).  Whichever
+		// snapshot of the digest the signer uses, it uses ONE: the signature is valid for the
+		// digest before or after the change, and two such calls never pair one nonce with two
+		// different signed digests.
+		if i%2 == 1 {
+			w.Class("c09:reader:digest-changes-during-read")
+			type out struct{ r, s *big.Int }
+			var outs []out
+			post := [][]byte{rng.Bytes(len(dig)), rng.Bytes(len(dig))}
+			for _, pd := range post {
+				buf := append([]byte{}, dig...)
+				rd := &fixedReader{data: entropy, chunk: gen.Pick(rng, 0, 5)}
+				rd.onRead = func() { copy(buf, pd) }
+				lr, ls, _, err := priv.SignRaw(rd, buf)
+				if err != nil {
+					w.Fail("c09/reader:digest-changes", fmt.Sprintf("SignRaw failed when the digest buffer changed during the entropy read: %v", err), det...)
+					continue
+				}
+				br, bs := bigFromScalar(lr), bigFromScalar(ls)
+				Q := oracle.MulG(d)
+				if !oracle.ECDSAVerify(Q, dig, br, bs) && !oracle.ECDSAVerify(Q, pd, br, bs) {
+					w.Fail("c09/reader:digest-changes", fmt.Sprintf("the digest buffer changed from %x to %x during the entropy read; (r,s) = (%x,%x) is valid for neither (nonce and s computed from different snapshots)", dig, pd, br, bs), append(det, "digest_after", hx(pd))...)
+				}
+				outs = append(outs, out{br, bs})
+			}
+			if len(outs) == 2 && outs[0].r.Cmp(outs[1].r) == 0 && outs[0].s.Cmp(outs[1].s) != 0 {
+				w.Fail("c09/reader:digest-changes:nonce-reuse", fmt.Sprintf("two signing calls (same key, entropy and initial digest; digest buffer overwritten with %x resp. %x during the entropy read) share r = %x but have different s: one nonce signed two different digests", post[0], post[1], outs[0].r), append(det, "digest_after_1", hx(post[0]), "digest_after_2", hx(post[1]))...)
+			}
+		}
 		same(&fixedReader{data: append(append([]byte{}, entropy...), 1, 2, 3), chunk: 1 + rng.Intn(31)}, "random-chunk")
 		w.Class("c09:reader:chunks")
 		// failing after j bytes
